@@ -24,6 +24,18 @@ def main():
                         m.set_atomic_value(atom, v)
                     m.finish()
                     out = m.value_of(s).name
+                    if Meta.modal:
+                        # the tables do not depend on the world: same tuple at world 1 of a model whose world 0
+                        # carries the other values (rotated), operands nested once for good measure
+                        vals = list(Meta.values)
+                        m = logic.Model()
+                        for atom, v in zip((a, b), inp):
+                            m.set_atomic_value(atom, vals[(vals.index(v) + 1) % len(vals)], world=0)
+                            m.set_atomic_value(atom, v, world=1)
+                        m.finish()
+                        out1 = m.value_of(s, world=1).name
+                        if out1 != out:
+                            out = f'{out}@0/{out1}@1'
                 except Exception as e:
                     out = f'!{type(e).__name__}'
                 rows.append([[v.name for v in inp], out])
